@@ -4,6 +4,23 @@ NOTES = ("Every check re-compiles coq/theories/Properties/<id>.v (theorems over 
          "implementation. See DESIGN.md. known_findings.json lists recorded defects; replays/ is written only on failure.")
 NOT_APPLICABLE = {}
 CLAIMS = {
+    "C09": {
+        "text": "Theorems over the Extract model (29, closed under the global context): per converter, from_words (as_words v) = v on exact domains - str, key, path (not starting with ~, "
+                "under the expanduser hypothesis), words, strings, qstr, bool, int (py_int_of_str (str z) = z; bounds), ints, single and multi choice, None/Auto; as_words refuses "
+                "out-of-domain lists / None / unknown choices; at scope level extract (format m p) = p for every well-formed master incl. nested .multiple definitions and scopes and "
+                "every p in the master's domain (C09_scope, compositional over leaf round trips). Refutations by witness are the open findings (strings None, ~ expansion, single None "
+                "element). PARTIAL: floats via the %.10g oracle and the text route print -> parse -> fetch -> extract and clone are decided by the stream on the implementation.",
+        "note": "Trusted: Coq kernel, extraction, driver, harness, hand-written models of scope.extract/format, scope_extract.__phil_set__/__phil_join__, the text converters; Conv.v and "
+                "Choice.v for numeric/choice converters; eval, expanduser and %.10g are oracles; float types inside trees unmodelled (converter-level stream instead).",
+    },
+    "C18": {
+        "text": "Theorems over the Extract model (12, closed under the global context): every scope extract reachable in an extraction - each element of a multiple scope included - reports "
+                "the full dotted path of the fields leading to it, and path.f for each field (via the invariant 'every extract sits under the key equal to its own name', preserved by "
+                "__phil_set__ and __phil_join__); assignment succeeds iff the name is a field (class attributes aside), an undeclared name is refused with the full dotted path and can be "
+                "injected exactly once; every master object with is_template >= 0 yields an attribute. PARTIAL: detachment (mutating extracted values never alters the tree) is aliasing "
+                "and is checked on the implementation by mutating every extracted list/object and re-extracting.",
+        "note": "Trusted as C09. class_attrs is compared with dir(scope_extract) on every run; parent pointers are replaced by an explicit ancestor-name list.",
+    },
     "C05": {
         "text": "Theorems over the Fetch model for every env and canon oracle (20, closed under the global context). Metamorphic part (all masters incl. nested multiples, both diff "
                 "flags, $-free sources): the result depends on the sources only through the observational class of their concatenation (C05_observational), hence splitting a source at "
